@@ -33,8 +33,12 @@ def unit_deps(gen, unit):
             if toks[i + 1] == '(' and (t[0].isalpha() or t[0] == '_'):
                 names.add(t)
     deps = set()
+    import re as _re
     for it in gen.items:
         if it.entry.unit == unit or it.kind not in ('fn', 'const', 'proof'):
+            continue
+        sc = it.entry.opts.get('scope')
+        if sc is not None and _re.fullmatch(sc, unit) is None:
             continue
         short = it.key.split('::')[-1] if it.kind != 'proof' else it.entry.key
         if short in names:
@@ -43,8 +47,13 @@ def unit_deps(gen, unit):
 
 
 def closure(units, digit, mode):
-    gen = Generator(RUN.load_expansion(mode), RUN.load_overlay(), digit, mode)
-    gen.build_items()
+    gens = {}
+
+    def gen_for(tag):
+        if tag not in gens:
+            gens[tag] = Generator(RUN.load_expansion(mode), RUN.load_overlay(), tag, mode)
+            gens[tag].build_items()
+        return gens[tag]
     seen = []
     todo = list(units)
     while todo:
@@ -52,7 +61,9 @@ def closure(units, digit, mode):
         if u in seen:
             continue
         seen.append(u)
-        for d in sorted(unit_deps(gen, u)):
+        # pair units: one splitting and one packing instantiation (their entries differ by `pairs=`)
+        tags = ['u64xu32', 'u32xu64'] if u in P.PAIR_UNITS else [digit]
+        for d in sorted(set().union(*[unit_deps(gen_for(t), u) for t in tags])):
             if d not in seen:
                 todo.append(d)
     return seen
@@ -85,14 +96,14 @@ def run_property(pid, tier, seed=0):
             if (u, m) not in all_units:
                 all_units.append((u, m))
     for (u, m) in all_units:
-        for d in digits:
+        for d in P.unit_digits(u, digits):
             jobs.append((u, d, m, False))
     # vacuity canaries: own units, u64 (quick) / all digits (thorough)
     for u in own_units:
         for m in P.unit_modes(u):
-            for d in (['u64'] if tier == 'quick' else digits):
+            for d in (P.unit_digits(u, digits) if u in P.PAIR_UNITS else ['u64'] if tier == 'quick' else digits):
                 jobs.append((u, d, m, True))
-    results = RUN.verify_many(jobs, workers=int(os.environ.get('BNV_WORKERS', '5')))
+    results = RUN.verify_many(jobs, workers=int(os.environ.get('BNV_WORKERS', '7')))
     baseline = set(load_json(BASELINE, {}).get('proved', []))
     known = load_json(KNOWN, {'findings': [], 'fixed': []})
     violations = []
@@ -157,9 +168,9 @@ def run_property(pid, tier, seed=0):
     from . import kani as KANI
     from . import cex as CEX
     kres = dict(results=[], violations=[], undecided=[], wall_s=0.0, checks=0, harnesses=0)
-    if cfg.get('kani', True):
+    if cfg.get('kani', True) and not os.environ.get('BNV_NO_KANI'):
         try:
-            kres = KANI.run_property(pid, tier)
+            kres = KANI.run_property(pid, tier, seed)
         except Exception as ex:
             undecided.append(f'kani run failed: {ex}')
     undecided += kres['undecided']
@@ -170,9 +181,11 @@ def run_property(pid, tier, seed=0):
     lines = []
     seen_generic = set()
     for kv in kres['violations']:
-        finding = match_known(known, pid, kv['harness'], None)
+        finding = match_known(known, pid, kv['harness'], None, kv.get('failed_checks'))
         if finding:
-            lines.append(f"KNOWN-FINDING: property={pid} {finding}")
+            l = f"KNOWN-FINDING: property={pid} {finding}"
+            if l not in lines:
+                lines.append(l)
             continue
         reported += 1
         rp = os.path.join(VERIF, 'build', 'replays', f"{pid}_kani_{kv['harness']}_{kv['mode']}.json")
@@ -211,6 +224,38 @@ def run_property(pid, tier, seed=0):
         suffix = '' if cex else ' no-failing-input-found'
         lines.append(f"VIOLATION property={pid} replay={rp}{suffix}")
         exit_code = 1
+    # ---- functions that changed and could not be decided by Verus (lost anchor, ghost text no longer fits the
+    # new code, unsupported construct): fall back to the registered Kani harnesses of exactly those functions.
+    # A concrete failing input found there is a violation (bounded evidence, replayable); nothing found stays undecided.
+    suspects = {}
+    for res in results:
+        if res['canary']:
+            continue
+        for it in res['items']:
+            if it['status'] != 'proved' and not it['identical'] and it['kind'] != 'proof':
+                suspects.setdefault(CEX.generic_key(it['key'].replace('__mp', '')), (res, it['key']))
+        for pb in res['problems']:
+            suspects.setdefault(CEX.generic_key(pb['key'].replace('__mp', '')), (res, pb['key']))
+    done_generic = {g.split('/')[0] for g in seen_generic}
+    spent = 0.0
+    for gk, (res, key) in sorted(suspects.items()):
+        if gk in done_generic or spent > 900 or os.environ.get('BNV_NO_KANI'):
+            continue
+        t1 = time.time()
+        try:
+            cex = CEX.search(pid, key, res['digit'], res['mode'], budget_s=300)
+        except Exception as ex:
+            cex = None
+            undecided.append(f'counter-example search for {key} failed: {ex}')
+        spent += time.time() - t1
+        if cex:
+            reported += 1
+            rp = os.path.join(VERIF, 'build', 'replays', f"{pid}_changed_{key.replace('::', '.').replace(' ', '')}.json")
+            json.dump(dict(property=pid, function=key, unit=res['unit'], digit=res['digit'], mode=res['mode'],
+                           failed_obligations=['the function changed and its proof no longer applies (undecided by Verus); a registered Kani harness fails'] + cex.get('failed_checks', []),
+                           verifier_output=[], concrete_input=cex), open(rp, 'w'), indent=1)
+            lines.append(f"VIOLATION property={pid} replay={rp}")
+            exit_code = 1
     if exit_code == 0 and undecided:
         exit_code = 2
     wall = time.time() - t0
@@ -224,7 +269,7 @@ def run_property(pid, tier, seed=0):
                             verus_obligations=obligations, verus_discharged=discharged,
                             evaluations=len(functions) + len(kres['results']), distinct_nontrivial=nproved + kpass,
                             rule='one case = one contracted function (per digit type and build mode) whose every obligation Verus discharged, or one Kani harness (full symbolic input domain of one configuration) that passed with its reachability cover satisfied',
-                            kani=dict(harnesses=len(kres['results']), passed=kpass, cbmc_checks=kres['checks'], wall_s=kres['wall_s'], results=kres['results'],
+                            kani=dict(harnesses=len(kres['results']), registered=kres.get('registered'), passed=kpass, cbmc_checks=kres['checks'], wall_s=kres['wall_s'], results=kres['results'],
                                       note='bounded: complete over all inputs of the listed configurations only; never counted as proved'),
                             checker_cmd='verus <generated file> --output-json --time --error-format=json (one file per unit x digit x mode under build/verus/)',
                             trusted_base=ASSUMPTIONS,
@@ -245,9 +290,15 @@ def run_property(pid, tier, seed=0):
     return exit_code
 
 
-def match_known(known, pid, fnkey, res):
+def match_known(known, pid, fnkey, res, failed_checks=None):
+    """a listed finding excuses exactly the recorded failure: same property, same function/harness and,
+    when the entry says so, every failed check must be the recorded one (anything else is a new violation)"""
     for f in known.get('findings', []):
         if f.get('property') == pid and f.get('function') == fnkey:
+            sub = f.get('only_failed_check_contains')
+            if sub is not None and failed_checks is not None:
+                if not failed_checks or any(sub not in c for c in failed_checks):
+                    continue
             return f.get('what', '')
     return None
 
@@ -260,9 +311,9 @@ def rebaseline():
     modes = {}
     for u in ov.units:
         for m in P.unit_modes(u):
-            for d in P.ALL_DIGITS:
+            for d in P.unit_digits(u, P.ALL_DIGITS):
                 jobs.append((u, d, m, False))
-    results = RUN.verify_many(jobs, workers=int(os.environ.get('BNV_WORKERS', '5')))
+    results = RUN.verify_many(jobs, workers=int(os.environ.get('BNV_WORKERS', '7')))
     bad = 0
     for res in results:
         for it in res['items']:
@@ -278,10 +329,14 @@ def rebaseline():
     print(f'baseline: {len(proved)} proved, {bad} not proved')
 
 
-def dev_unit(unit, digit, mode, canary):
+def dev_unit(unit, digit, mode, canary, digit2=None):
     digits = P.ALL_DIGITS if digit == 'all' else digit.split(',')
+    if digit2:
+        # pair units: --digit TARGET --digit2 SOURCE (each may be `all`) -> tags TARGETxSOURCE
+        d2s = P.ALL_DIGITS if digit2 == 'all' else digit2.split(',')
+        digits = [f'{a}x{b}' for a in digits for b in d2s if a != b]
     rc = 0
-    results = RUN.verify_many([(unit, d, mode, canary) for d in digits], workers=4)
+    results = RUN.verify_many([(unit, d, mode, canary) for d in digits], workers=int(os.environ.get('BNV_WORKERS', '4')))
     for res in results:
         print(f"== {unit} {res['digit']} {mode}: verus {res['verus_status']} verified={res['verified']} errors={res['errors']} wall={res['wall_s']:.1f}s file={res['file']}")
         for pb in res['problems']:
@@ -320,6 +375,7 @@ def main(argv=None):
     ap.add_argument('--rebaseline', action='store_true')
     ap.add_argument('--unit', help='developer: verify one unit and print failures')
     ap.add_argument('--digit', default='u64')
+    ap.add_argument('--digit2', help='developer, pair units: second (source) digit type or `all`')
     ap.add_argument('--mode', default='dbg')
     ap.add_argument('--canary', action='store_true')
     a = ap.parse_args(argv)
@@ -327,7 +383,7 @@ def main(argv=None):
         rebaseline()
         return 0
     if a.unit:
-        return dev_unit(a.unit, a.digit, a.mode, a.canary)
+        return dev_unit(a.unit, a.digit, a.mode, a.canary, a.digit2)
     if a.replay:
         from . import cex as CEX
         return CEX.replay(a.replay)
